@@ -1,5 +1,6 @@
 import CifModel.Lemmas.HeapHistStep2
 import CifModel.Lemmas.HeapHistMap
+import CifModel.Lemmas.HeapHistFuel
 /-
   Lemmas for operation histories on the heap, part 4c: one-step simulation for the map operations (tables and packets:
   set on a new / an existing key with any aliasing of the source, remove into a slot / released) and for `bld`.
@@ -9,18 +10,25 @@ open CifModel CifModel.Model.Heap
 open CifModel.Model.Value (Step Entry resolve update child setChild defaultOf mapFind mapSet mapReplace mapErase insertAt removeAt
   getAt setAt)
 
-/-- the pure state in the middle of an operation, where the heap functions need fuel for it too: `set_item` on an existing
-    key (new spelling recorded, value not yet replaced); `bld` (the value being built) -/
-def midP (p : PState) : HOp → PState
-  | .mset r key (some nk) _ =>
-    match getP p r with
-    | some (.tbl es) =>
-      match mapFind es nk with
-      | some e => (putP p r (.tbl (mapReplace es nk key e.2.2))).getD p
-      | none => p
-    | _ => p
-  | .bld i v => if (Root.val i).ok then setP p (.val i) (some v) else p
-  | _ => p
+/-- recording a new spelling allocates at most one block -/
+theorem entryRespell_next_ub (pinned : Bool) (h h' : Heap) (e : Nat) (key : Str) (hop : entryRespell pinned h e key = some h') :
+    h'.next ≤ h.next + 1 := by
+  unfold entryRespell at hop
+  split at hop
+  · split at hop
+    · split at hop
+      · simp only [Option.some.injEq] at hop; subst hop; omega
+      · simp only [alloc] at hop
+        split at hop
+        · cases hop
+        · rename_i h2 hf
+          have hw := write_next _ _ _ _ hop
+          rw [hw]
+          split at hf
+          · have := free_next _ _ _ hf; rw [this]; simp
+          · simp only [Option.some.injEq] at hf; subst hf; simp
+    · cases hop
+  · cases hop
 
 section
 variable {s : HState} {p : PState} {F : Root → List Nat}
@@ -129,7 +137,7 @@ theorem getP_setP_ok {q : PState} {r : Ref} {c : V} (h : putP p r c = some q) : 
       · simp [he, hp]
 
 theorem step_mset (inv : RepS [] s p F) (fuel : Nat) (hf : Fits fuel p) (r : Ref) (key : Str) (nk : Option Str)
-    (src : Option Ref) (hm : Fits fuel (midP p (.mset r key nk src))) :
+    (src : Option Ref) (hbig : 3 * s.h.next + 9 ≤ fuel) :
     Sim [] (stepH? fuel s (.mset r key nk src)) (stepP? p (.mset r key nk src)) := by
   simp only [stepH?, stepP?]
   by_cases hv : r.root.ok = true
@@ -178,12 +186,12 @@ theorem step_mset (inv : RepS [] s p F) (fuel : Nat) (hf : Fits fuel p) (r : Ref
             obtain ⟨e, h1, F', hfe, hrs, U⟩ := respell_spec _ inv0.wf t0 ents0 es Ft0 nk key ent hgt0 hen0 htF0 hFt0 hmf
             obtain ⟨p1, F1, hputP, inv1⟩ := hk0 h1 _ _ F' [] U
             have inv1' : RepS [s.h.next] ⟨h1, s.slot⟩ p1 F1 := inv1.congrT (fun a => by simp)
-            have hf1 : Fits fuel p1 := by
-              have : midP p (.mset r key (some nk) src) = p1 := by
-                simp only [midP, hg, hmf, hputP, Option.getD_some]
-              rw [← this]; exact hm
+            have hub : h1.next ≤ (alloc s.h (.str nk)).2.next + 1 := entryRespell_next_ub false _ h1 e key hrs
+            have hf1 : Fits fuel p1 := inv1'.fitsAt fuel (by
+              show 3 * h1.next + 2 ≤ fuel
+              have : (alloc s.h (.str nk)).2.next = s.h.next + 1 := rfl
+              omega)
             simp only [hfe, hrs, hputP]
-            clear hm
             have hval : (r.member (.key nk)).isVal = true := root_ok_member hv _
             rcases setValue_step inv1' fuel hf1 src _ hval with ⟨s2, p2, F2, e1, e2, inv2⟩ | ⟨e1, e2⟩
             · rw [e1, e2]
